@@ -44,6 +44,7 @@ type Contract struct {
 	Unroll   map[int]int
 	OnCall   []CExpr
 	OnAssign []CExpr
+	RetExpr  map[*Directive]CExpr
 	BefCall  []CExpr
 	BefRet   []CExpr
 	Assigns  []CExpr
@@ -718,6 +719,17 @@ func (w *World) resolve(c *Contract, si *sigInfo) error {
 				return err
 			}
 			if d.Kind == "oncall" {
+				if d.Ret != "" && d.Ret != "nil" && d.Ret != "err" && d.Ret != "ok" {
+					// "returning io.EOF": the update applies when the call's error is that sentinel
+					re, err := w.check(c, sites[0].Pos(), d, d.Ret, nil)
+					if err != nil {
+						return err
+					}
+					if c.RetExpr == nil {
+						c.RetExpr = map[*Directive]CExpr{}
+					}
+					c.RetExpr[d] = re
+				}
 				c.OnCall = append(c.OnCall, ce)
 			} else {
 				c.BefCall = append(c.BefCall, ce)
